@@ -29,6 +29,7 @@ func fixSSAOrder(pkg *ssa.Package, files []*ast.File) {
 		return
 	}
 	selectRecvAssigns := collectSingleCaseSelectRecvAssigns(files)
+	returnIdents := collectReturnIdentResults(files)
 	visited := make(map[*ssa.Function]struct{})
 	visitFn := func(fn *ssa.Function) {
 		if fn == nil {
@@ -38,7 +39,7 @@ func fixSSAOrder(pkg *ssa.Package, files []*ast.File) {
 			return
 		}
 		visited[fn] = struct{}{}
-		fixSSAOrderFunc(fn, selectRecvAssigns)
+		fixSSAOrderFunc(fn, selectRecvAssigns, returnIdents)
 	}
 
 	for _, mem := range pkg.Members {
@@ -66,17 +67,69 @@ func fixSSAOrderMethods(pkg *ssa.Package, typ types.Type, visitFn func(*ssa.Func
 	}
 }
 
-func fixSSAOrderFunc(fn *ssa.Function, selectRecvAssigns map[token.Pos]struct{}) {
+func fixSSAOrderFunc(fn *ssa.Function, selectRecvAssigns map[token.Pos]struct{}, returnIdents map[token.Pos][]string) {
 	if fn == nil || len(fn.Blocks) == 0 {
 		return
 	}
 	for _, b := range fn.Blocks {
-		fixSSAOrderBlock(b)
+		fixSSAOrderBlock(b, returnIdents)
 		fixSingleCaseSelectRecvAssignBlock(b, selectRecvAssigns)
 	}
 	for _, anon := range fn.AnonFuncs {
-		fixSSAOrderFunc(anon, selectRecvAssigns)
+		fixSSAOrderFunc(anon, selectRecvAssigns, returnIdents)
 	}
+}
+
+// collectReturnIdentResults maps the position of every return statement to the
+// names of its result expressions that are plain identifiers ("" otherwise).
+//
+// Only such a result reads the variable as part of the return statement
+// itself (`return o, o.mutate()`). A load that reaches the Return from an
+// earlier statement, e.g. the copy in
+//
+//	v := o
+//	r := p.mutate() // p == &o
+//	return v, r
+//
+// is sequenced before the call by the spec and must not be moved.
+func collectReturnIdentResults(files []*ast.File) map[token.Pos][]string {
+	ret := make(map[token.Pos][]string)
+	for _, file := range files {
+		ast.Inspect(file, func(node ast.Node) bool {
+			rs, ok := node.(*ast.ReturnStmt)
+			if !ok || len(rs.Results) == 0 {
+				return true
+			}
+			names := make([]string, len(rs.Results))
+			for i, e := range rs.Results {
+				if id, ok := ast.Unparen(e).(*ast.Ident); ok {
+					names[i] = id.Name
+				}
+			}
+			ret[rs.Return] = names
+			return true
+		})
+	}
+	return ret
+}
+
+// allocNameIsUnique reports whether alloc is the only Alloc of its function
+// carrying that variable name, so that an identifier with this name inside the
+// function can only denote this variable.
+func allocNameIsUnique(alloc *ssa.Alloc) bool {
+	fn := alloc.Parent()
+	if fn == nil || alloc.Comment == "" {
+		return false
+	}
+	n := 0
+	for _, b := range fn.Blocks {
+		for _, ins := range b.Instrs {
+			if a, ok := ins.(*ssa.Alloc); ok && a.Comment == alloc.Comment {
+				n++
+			}
+		}
+	}
+	return n == 1
 }
 
 func collectSingleCaseSelectRecvAssigns(files []*ast.File) map[token.Pos]struct{} {
@@ -239,7 +292,7 @@ func valueDependsOnReusing(v, target ssa.Value, seen map[ssa.Value]struct{}) boo
 	return valueDependsOn(v, target, seen)
 }
 
-func fixSSAOrderBlock(b *ssa.BasicBlock) {
+func fixSSAOrderBlock(b *ssa.BasicBlock, returnIdents map[token.Pos][]string) {
 	if b == nil || len(b.Instrs) == 0 {
 		return
 	}
@@ -257,15 +310,25 @@ func fixSSAOrderBlock(b *ssa.BasicBlock) {
 		return
 	}
 
+	// Result expressions of this return statement that are spelled as a plain
+	// variable; a load may only be delayed if it belongs to such a result.
+	names := returnIdents[ret.Pos()]
+	if len(names) != len(ret.Results) {
+		return
+	}
+
 	// For each return result that is a load from a local alloc, try to move the
 	// load after any intervening calls that use the alloc pointer.
-	for _, rv := range ret.Results {
+	for i, rv := range ret.Results {
 		u, ok := rv.(*ssa.UnOp)
 		if !ok || u.Op != token.MUL {
 			continue
 		}
 		alloc, ok := u.X.(*ssa.Alloc)
 		if !ok {
+			continue
+		}
+		if names[i] == "" || names[i] != alloc.Comment || !allocNameIsUnique(alloc) {
 			continue
 		}
 
